@@ -1159,6 +1159,13 @@ def b_range(ip, args, kwargs):
                   mutable=False)
 
 
+def b_map(ip, args, kwargs):
+    """map(f, it1, ...) over concrete-shape iterables: the list of results"""
+    fn = args[0]
+    lists = [ip.iterate_concrete(x) for x in args[1:]]
+    return PList([ip.call_value(fn, list(items), {}, None) for items in zip(*lists)])
+
+
 def b_enumerate(ip, args, kwargs):
     start = args[1] if len(args) > 1 else kwargs.get("start", 0)
     v = args[0]
@@ -1455,6 +1462,7 @@ BUILTINS = {
     "len": PyFunc(b_len, "len"),
     "range": PyFunc(b_range, "range"),
     "enumerate": PyFunc(b_enumerate, "enumerate"),
+    "map": PyFunc(lambda ip, args, kwargs: b_map(ip, args, kwargs), "map"),
     "zip": PyFunc(b_zip, "zip"),
     "isinstance": PyFunc(b_isinstance, "isinstance"),
     "all": PyFunc(b_all, "all"),
